@@ -8,7 +8,8 @@ CHECKS = {
         text="For every input within the stated bounds (xor data<=8/16 x key<=9/20 bytes, NetBIOS <=6/8 bytes x offsets 0..240, "
         "pack/unpack at widths 1,2,4,8 x byte orders x signedness over the whole value range incl. out-of-range values, URIs of <=5/6 "
         "arbitrary Unicode code points, bounded retries of random_stager_uri, find_staged_beacon gate on <=5/6 byte URIs) the solver "
-        "shows the real utils/pcap code equals the reference definition; nothing is claimed outside the bounds.",
+        "shows the real utils/pcap code equals the reference definition; nothing is claimed outside the bounds."
+        ' xor on long inputs (65 541 bytes; thorough also 8 197 / 131 077): pointwise specification at symbolic probe positions and around 4 KiB / 64 KiB multiples.',
         note="Trusted: z3; symx interpreter and its models of int/bytes/str builtins, re (sre-parser based matcher) and random "
         "(nondeterministic), each validated against CPython on every run; BeaconConfig.from_bytes replaced by a call recorder.",
         ref="§4 C20"),
@@ -17,7 +18,8 @@ CHECKS = {
         "AES-CBC(key, iv, padded), signature == HMAC[:16] over the ciphertext, decrypt(encrypt(x)) == x+padding; a symbolic non-zero "
         "difference over the ciphertext, the signature or the HMAC key, truncations, and a missing HMAC key are rejected with "
         "ValueError before any AES decryption is attempted; client/server framing of <=3/4 packets splits back exactly. AES and HMAC "
-        "are uninterpreted functions, so nothing is claimed about their strength.",
+        "are uninterpreted functions, so nothing is claimed about their strength."
+        ' Also: 1..16 arbitrary bytes appended to an authentic ciphertext or signature are rejected before decryption.',
         note="Trusted: z3; symx; AES-CBC / HMAC-SHA256 as uninterpreted functions with their length/permutation contracts (checked "
         "against pycryptodome/hmac each run); assumption A-HMAC (distinct (key,msg) => tags differ) only in the ciphertext/key/"
         "truncation fault instances.",
@@ -27,7 +29,8 @@ CHECKS = {
         "decorations and initial requests) and every server-output program of <=2/3 steps, with symbolic payload (<=5/7 bytes), "
         "symbolic prepend/append arguments and a fresh symbolic mask per mask step: the library message equals the reference "
         "Malleable-C2 encoding (placement and bytes) and recover(transform(x)) == x. Known finding D8 (uri-append onto a non-empty "
-        "URI) is excluded by its region and re-confirmed each run.",
+        "URI) is excluded by its region and re-confirmed each run."
+        " Static header steps with a symbolic 3-byte value (any byte, ': ' included) are placed under the name in front of the first ': '.",
         note="Trusted: z3; symx; bit-level base64 model (validated against CPython each run); random.getrandbits nondeterministic; "
         "the reference encoder written in the harness from the Malleable C2 definition. Library==reference plus library round trip "
         "gives both cross directions (reference-encoded messages decode with the library and vice versa).",
@@ -37,7 +40,8 @@ CHECKS = {
         "{0,1,2,4}/{0..4,6} with symbolic bytes and every ending (00 00 + trailing bytes, end of data, truncated record): "
         "settings_tuple, setting_enums, max_setting_enum and the const/enum/name x raw/pretty x parse views are proved equal to an "
         "independent TLV walk (order, keys, u16be/u32be, raw bytes), index 36 named by type, unknown indices synthetic, pretty == raw "
-        "where no pretty-printer exists, mappings read-only; 128-byte User-Agent continuation incl. the unterminated case.",
+        "where no pretty-printer exists, mappings read-only; 128-byte User-Agent continuation incl. the unterminated case."
+        ' Continuations of 127..129 (thorough: up to 300) bytes are followed by a correctly decoded record.',
         note="Trusted: z3; symx; cstruct generated reader interpreted with modelled leaves; OrderedDict/MappingProxyType replaced by "
         "association-list models with symbolic keys; validity predicate: indices pairwise distinct; name/pretty views over a 10-value "
         "index domain.",
@@ -92,7 +96,8 @@ CHECKS = {
         text="For every plaintext (<=9/13 symbolic bytes), nonce, stub and every history of <=2 (selected 3/4) read/seek/tell operations "
         "with symbolic sizes and offsets, each step of the real XorEncodedFile is proved equal to the semantics of io.BytesIO(plaintext) "
         "(bytes returned, tell(), seek() return value). Detection: PE scaffolds behind stubs with marker and/or size field are located "
-        "at the end of the stub for every nonce; every file of <=10/12 symbolic bytes is rejected with ValueError.",
+        "at the end of the stub for every nonce; every file of <=10/12 symbolic bytes is rejected with ValueError."
+        ' A stray ff ff ff in front of a true offset designated by marker and size field does not win.',
         note="Trusted: z3; symx; BytesIO and cstruct-reader models; validity predicate of the detection harness: the size relation and "
         "the marker designate a single candidate offset; pe.find_mz_offset is cut to None for files < 64 bytes, justified by lemma "
         "obligations discharged in the same run.",
@@ -105,7 +110,8 @@ CHECKS = {
         "the operation's observable result is proved equal to a reference taken on a freshly parsed configuration BEFORE the history ran "
         "(so results depending on earlier uses — through the object or through state shared between decoders — differ); families incl. "
         "duplicate setting indices and a BeaconGate vector; item assignment/deletion on "
-        "the mappings raises TypeError. Object identity and aliasing are the real ones (the interpreter runs on real Python containers).",
+        "the mappings raises TypeError. Object identity and aliasing are the real ones (the interpreter runs on real Python containers)."
+        ' A configuration with static Host headers and a client run with explicit overrides (host_header, sleeptime, jitter, user agent) is included.',
         note="Trusted: z3; symx; SHA-256/AES/HMAC uninterpreted; RSA key import real (concrete DER); random nondeterministic; "
         "lark Tree real / tokens with symbolic text. Longer histories follow by induction from state preservation (stated).",
         ref="§4 C14"),
@@ -117,7 +123,8 @@ CHECKS = {
         "0..100 — decided over the rationals, not IEEE-754; metadata built from names with 3 (4) symbolic code points anywhere in "
         "Unicode around the 51-byte limit fits the configured RSA key; for every registry built from decorator / register_task / "
         "on_<command> / catch-all / on_catch_all / empty-task handlers and every sequence of <=2/3 tasks with symbolic commands, each "
-        "task invokes exactly the registered handlers (catch-all only when none), each once, and each handler response is sent once.",
+        "task invokes exactly the registered handlers (catch-all only when none), each once, and each handler response is sent once."
+        ' A raising handler does not keep the other handlers of the task, or later tasks, from being served once.',
         note="Trusted: z3 (QF_BV; LRA for the sleep band); symx; random as nondeterministic draws that are a function of (seed, draw "
         "number) after seed(); SHA-256 uninterpreted; PKCS#1 length contract; get_task/send_callback/time replaced by recorders in the "
         "dispatch harness. Unknown command ids (BeaconCommand(x) raises ValueError inside the loop) are outside the claim.",
@@ -129,7 +136,8 @@ CHECKS = {
         "stamp (directory of the first section containing the RVA at every delta, None without one), magic_mz, magic_pe (NUL-stripped), "
         "stage prepend/append equal the image's. Version: for every 32-bit export stamp and 16-bit highest setting index the reported "
         "version is the table entry of the stamp when present and non-zero, else of the index, 'Unknown' otherwise, with tuple and date "
-        "agreeing with the text; both tables are monotone by tuple and by date (SMT query over two symbolic keys).",
+        "agreeing with the text; both tables are monotone by tuple and by date (SMT query over two symbolic keys)."
+        ' Artifacts of a Guardrails-protected image (symbolic stamps, scaled patch areas) and of a Guardrails-protected XorEncoded stage (concrete scenario).',
         note="Trusted: z3; symx; BytesIO model and cstruct generated readers; re/strptime run natively on the concrete table strings; "
         "version strings parsed independently by the harness. A zero export TimeDateStamp counts as absent (stated interpretation).",
         ref="§4 C18"),
@@ -155,7 +163,8 @@ CHECKS = {
         "or raises ValueError exactly when no tried key has a candidate. H4: two blocks under two tried keys in both file orders. H2: with "
         "the real 8192-byte buffer, a block at a symbolic offset at/around both buffer boundaries, offset 0/1 and end of file, keys "
         "69/00/a7(+2e), symbolic neighbour bytes and protocol value. H3: the block inside a PE section, raw and as XorEncoded stage (also: block key only "
-        "reached by the all-keys retry; marker-less stub with a nonce containing ff ff ff), with architecture and compile stamp of the embedding image.",
+        "reached by the all-keys retry; marker-less stub with a nonce containing ff ff ff), with architecture and compile stamp of the embedding image."
+        " Key mode 'caller keys a5 5a + all_xor_keys' on every 7-byte file.",
         note="Trusted: z3; symx; file models; cstruct readers; pe.find_mz_offset replaced by None for files < 64 bytes (lemma instances in the "
         "same check). In all-keys mode the order of the 253 left-over keys is implementation-defined (the result must be a true first "
         "candidate of its key; ValueError only if no key at all has one). Settings are compared with BeaconConfig(block), whose decoding "
@@ -168,7 +177,8 @@ CHECKS = {
         "returns the original configuration byte for byte, a key that unmasks it, the guard settings in order with their values, the stored "
         "checksum and both offsets; (safety) with ARBITRARY candidate keys and an arbitrary stored checksum the scanner extracts exactly the "
         "stored checksum and reports a configuration only if payload_checksum(block)+1 equals it, otherwise the guard metadata alone; "
-        "payload_checksum equals the weighted byte sum modulo 99999999.",
+        "payload_checksum equals the weighted byte sum modulo 99999999."
+        ' The real n-gram key heuristic (no stub) is interpreted at the real 6144-byte patch size with a symbolic environmental key of 3 bytes (thorough 2..5) on zero-padded configurations with 16 / 2100 / 4000 bytes of settings, and with the longest documented key (256 bytes; 768-byte area): the true key is offered.',
         note="Trusted: z3; symx; find_xor_key_candidates (n-gram frequency heuristic over collections.Counter) is replaced by a candidate "
         "list — that the heuristic ranks the true key for every input is statistical and NOT claimed (it is run for real, at the real "
         "6144/2048 sizes, on concrete validation vectors each run). Validity predicate: the file contains no default-key header, no second "
@@ -181,7 +191,8 @@ CHECKS = {
         "group — the key under which lark's tree matcher keeps only the first production — mixes two token sequences; a witness is "
         "turned into a sentence and replayed through the real from_text/as_text. (3) as_text's layout generator is interpreted over the "
         "model token stream of 9/14 statement and block skeletons whose string literals hold 1..3/4 symbolic characters (any valid STRING "
-        "body): the text re-tokenises to the same token sequence with every literal preserved character for character.",
+        "body): the text re-tokenises to the same token sequence with every literal preserved character for character."
+        ' from_text hands every statement with its string literal (0..3 symbolic code points) to the parser unchanged.',
         note="Trusted: z3; symx; the grammar-table model of lark (parser, contextual lexer, Earley tree matcher are third party and not "
         "encoded) — validated each run by pushing a minimal sentence for EVERY reachable production through the real parser, "
         "reconstructor and lexer and comparing with the model's prediction (a disagreement is a harness error); lexer model for the "
@@ -208,7 +219,8 @@ CHECKS = {
         "and the dictionary computed by the interpreted as_dict states sleep time, jitter, User-Agent, URIs, verbs, static "
         "headers/parameters, the http-get/http-post client steps with byte-exact arguments, the server-output step kinds and lengths, "
         "and the process-inject / stage / DNS options; empty blocks are omitted. Known finding D14a (text value containing a backslash) "
-        "is excluded by its region and re-confirmed each run.",
+        "is excluded by its region and re-confirmed each run."
+        ' The length of a server-output append is symbolic (0..4).',
         note="Trusted: z3; symx; grammar-table model of lark (validated in C10/C11 and by native replays through the real "
         "as_text/from_text); SHA-256 uninterpreted. The ORDER of server-output steps is not asserted either way (the configuration stores "
         "a recover program).",
@@ -221,7 +233,8 @@ CHECKS = {
         "<= 3/4 steps over {check-in without task, check-in with task, callback} plus a POST carrying two callbacks, for 4/5 configurations "
         "and the three key-material variants; task data, callback data (0..3 symbolic bytes), callback ids symbolic. A fresh C2Http decodes "
         "the recorded messages (as objects, and through the raw wire form + parse_raw_http for one configuration / all in thorough) to "
-        "exactly the metadata, task and callback packets sent, in order, and the client itself decodes the task it was sent.",
+        "exactly the metadata, task and callback packets sent, in order, and the client itself decodes the task it was sent."
+        ' Key material RSA key + only one of the two session keys decodes as well.',
         note="Trusted: z3; symx; AES-CBC/HMAC/SHA-256 uninterpreted with their contracts, PKCS#1 contract stub (C05/C06 decide the crypto "
         "framing itself); the peer encodes task data with the library's server-output transform (transform == reference encoding is C04's "
         "result); base64 decode-of-encode provenance shortcut (a theorem of the bit-level model, validated each run in C04); one fixed "
